@@ -41,7 +41,7 @@ func Harness_C02_C03_limits() {
 	for t := 0; t < 3; t++ {
 		now += verifDur("dt")
 		c.setNow(now)
-		root[t] = zz.NondetBool("isRoot")
+		root[t] = zz.And(zz.Or(t < 2, zz.Thorough()), zz.NondetBool("isRoot")) // quick tier: trace C is never a root
 		zz.Assert(c.i.AddSpan(c.span(tids[t], root[t], 1)) == nil, "span admitted")
 		c.barrier()
 		nspans[t] = 1
@@ -69,22 +69,14 @@ func Harness_C02_C03_limits() {
 		now += verifDur("dt")
 		c.tickAt(now)
 		// expected: among undecided traces with deadline <= now, the maxExp earliest (all if 0)
-		nExpired := 0
-		for t := 0; t < 3; t++ {
-			if zz.And(!decided[t], deadline[t] <= now) {
-				nExpired++
-			}
-		}
 		for t := 0; t < 3; t++ {
 			if decided[t] {
 				continue
 			}
-			earlier := 0 // expired undecided traces with an earlier deadline
+			earlier := 0 // expired undecided traces with an earlier deadline (counted without forking)
 			for u := 0; u < 3; u++ {
 				if u != t && !decided[u] {
-					if zz.And(deadline[u] <= now, deadline[u] < deadline[t]) {
-						earlier++
-					}
+					earlier += zz.IteInt(zz.And(deadline[u] <= now, deadline[u] < deadline[t]), 1, 0)
 				}
 			}
 			want := zz.And(deadline[t] <= now, zz.Or(maxExp == 0, earlier < maxExp))
